@@ -55,6 +55,7 @@ type stats struct {
 	Recoveries    int            `json:"recovery_builds_checked"`
 	DryRuns       int            `json:"dry_runs"`
 	DryPredicted  int            `json:"dry_runs_compared_with_real_build"`
+	MultiRuns     int            `json:"same_process_run_sequences"`
 	GCs           int            `json:"gc_ops"`
 	GCRemoved     int            `json:"record_files_removed_by_gc"`
 	GCTemps       int            `json:"temporaries_removed_by_gc"`
@@ -62,6 +63,7 @@ type stats struct {
 	TwinBuilds    int            `json:"twin_builds_compared"`
 	Edits         map[string]int `json:"edit_kinds"`
 	CrashHooks    map[string]int `json:"crash_points_hit"`
+	Layouts       map[string]int `json:"project_layouts"`
 	Targets       map[int]int    `json:"targets_per_project"`
 	WallS         float64        `json:"wall_s"`
 }
@@ -80,13 +82,16 @@ func (s *stats) add(o *stats) {
 	for k, v := range o.CrashHooks {
 		s.CrashHooks[k] += v
 	}
+	for k, v := range o.Layouts {
+		s.Layouts[k] += v
+	}
 	for k, v := range o.Targets {
 		s.Targets[k] += v
 	}
 }
 
 func newStats() *stats {
-	return &stats{Edits: map[string]int{}, CrashHooks: map[string]int{}, Targets: map[int]int{}}
+	return &stats{Edits: map[string]int{}, CrashHooks: map[string]int{}, Targets: map[int]int{}, Layouts: map[string]int{}}
 }
 
 func sortedCopy(xs []string) []string {
@@ -551,6 +556,10 @@ func (j *judge) after(main *played) {
 
 // runHistory plays one history with the judges of `prop`
 func runHistory(r *runner, prop string, h *History) (*played, []violation, *stats) {
+	if len(h.Runs) > 0 {
+		v, st := runMulti(r, h)
+		return &played{}, v, st
+	}
 	st := newStats()
 	j := &judge{prop: prop, r: r, h: h, st: st, pending: map[[2]string]bool{}}
 	var prev *Obs
@@ -559,6 +568,11 @@ func runHistory(r *runner, prop string, h *History) (*played, []violation, *stat
 		prev = o
 	}})
 	st.Histories++
+	if h.Layout == "" {
+		st.Layouts["plain"]++
+	} else {
+		st.Layouts[h.Layout]++
+	}
 	st.Ops += len(h.Ops)
 	for _, op := range h.Ops {
 		if op.Kind == "edit" {
@@ -769,7 +783,11 @@ func main() {
 		return
 	}
 
-	n, nops := 100, 14
+	// quick: sized so that each check stays well below 90 s on a busy machine (children are processes)
+	n, nops := map[string]int{"C01": 50, "C02": 100, "C03": 45, "C13": 80, "C14": 70}[*prop], 14
+	if n == 0 {
+		n = 60
+	}
 	if *tier == "thorough" {
 		n, nops = 1500, 18
 	}
@@ -791,6 +809,35 @@ func main() {
 	for i := range hs {
 		r := &rng{s: *seed*1000003 + uint64(i)*7919 + uint64(len(*prop))*31 + uint64((*prop)[2])}
 		hs[i] = genHistory(r, *prop, nops)
+		if *prop == "C14" {
+			// a share of the collections happen in projects reached through symbolic links
+			switch i % 5 {
+			case 1:
+				hs[i].Layout = "rootlink"
+			case 3:
+				hs[i].Layout = "dawnlink"
+			}
+		}
+	}
+	if *prop == "C13" {
+		// same-process sequences of Run on one loaded project
+		r := &rng{s: *seed*4243 + 13}
+		np, n3 := 1, 35
+		if *tier == "thorough" {
+			np, n3 = 3, -1
+		}
+		hs = append(hs, multiRunHistories(r, np, n3)...)
+		n = len(hs)
+	}
+	if *prop == "C03" {
+		// the systematic part: named hook × target × {first save, replace} × {load, run}
+		r := &rng{s: *seed*7777 + 3}
+		np, ml := 1, 3
+		if *tier == "thorough" {
+			np, ml = 5, 6
+		}
+		hs = append(hs, enumCrashHistories(r, np, ml)...)
+		n = len(hs)
 	}
 	if *dump {
 		for _, h := range hs {
@@ -848,6 +895,11 @@ func main() {
 		}
 		for _, p := range pathStream(r, np) {
 			fmt.Fprintf(out, "C\tbuild.path\t%s\t%s\n", p.in, p.out)
+		}
+	}
+	if *prop == "C13" {
+		for _, p := range optionsStream() {
+			fmt.Fprintf(out, "C\tbuild.options\t%s\t%s\n", p.in, p.out)
 		}
 	}
 	if *prop == "C01" {
